@@ -2,12 +2,14 @@
 # tools/seed_matrix.sh [tier]: every seeded change against the check of the property it breaks.
 # Applies the patch to /repo, runs the check, restores /repo.  Results -> /verif/seeded/MATRIX.txt
 tier=${1:-quick}
+pat=${2:-C*}
 cd /verif
 # runs against a modified tree must not overwrite the committed evidence
 export VERIF_EVIDENCE_DIR=/tmp/verif-evidence-scratch
 out=/verif/seeded/MATRIX.txt
+[ "$pat" != "C*" ] && out=/verif/seeded/MATRIX.partial.txt
 echo "# seed -> check exit code (1 = detected), tier=$tier, $(date -u +%FT%TZ), repo $(git -C /repo log -1 --format=%h)" > $out
-for d in seeded/C*/; do
+for d in seeded/$pat/; do
   id=$(basename $d)
   prop=$(/venv/bin/python -c "import json;print(json.load(open('$d/meta.json'))['property'])")
   git -C /repo apply /verif/$d/patch.diff || { echo "$id $prop PATCH-DOES-NOT-APPLY" >> $out; continue; }
